@@ -337,6 +337,48 @@ pub mod g {
                     let prims: Vec<Vec<V3>> = (0..k - 1).map(|i| vec![vs[i].coords, vs[i + 1].coords]).collect();
                     v.push(("acc3".into(), format!("{} {} {} {}", s, d3::hv(&sc), via, tail(r, lat, &prims, &sc, 0, 4, 3)))); }
             }
+            // heightfields (own scale of any sign, removed cells): triangles(), projection and ray cast of the scaled field
+            if it % 4 == 1 {
+                let nr = 2 + r.below(3) as usize; let nc = 2 + r.below(3) as usize;
+                let hs: Vec<f64> = (0..nr * nc).map(|_| if lat { r.lattice(8, 1) } else { r.uniform(-2.0, 2.0) }).collect();
+                let e = |r: &mut Rng| if lat { *r.pick(&[0.25, 0.5, 1.0, 1.5, 2.0, 3.0]) } else { r.logu(1e-1, 1e1) };
+                let hsc = V3::new(e(r) * sg(r), e(r) * sg(r), e(r) * sg(r));
+                let mut s = format!("hf {} {}", nr, nc);
+                for h in &hs { s.push(' '); s.push_str(&hx(*h)); }
+                s.push(' '); s.push_str(&d3::hv(&hsc));
+                s.push_str(&format!(" {}", (nr - 1) * (nc - 1)));
+                for _ in 0..(nr - 1) * (nc - 1) { let st = if r.below(3) == 0 { r.below(8) } else { r.below(2) }; s.push_str(&format!(" {}", st)); }
+                // the cells (both triangles of each, whatever the status) only serve to aim the queries
+                let node = |i: usize, j: usize| V3::new((-0.5 + j as f64 / (nc as f64 - 1.0)) * hsc.x, hs[i * nc + j] * hsc.y, (-0.5 + i as f64 / (nr as f64 - 1.0)) * hsc.z);
+                let mut prims = Vec::new();
+                for i in 0..nr - 1 { for j in 0..nc - 1 { prims.push(vec![node(i, j), node(i + 1, j), node(i, j + 1)]); prims.push(vec![node(i + 1, j), node(i + 1, j + 1), node(i, j + 1)]); } }
+                v.push(("acc3".into(), format!("{} {} {} {}", s, d3::hv(&sc), via, tail(r, lat, &prims, &sc, 2, 4, 0))));
+            }
+            // 2-D polylines (5..16 segments, away from the origin): ray casts, projections, BVH
+            if it % 4 == 3 {
+                let k = 6 + r.below(12) as usize;
+                let off = d2::gen_v(r, lat, 4.0);
+                let vs: Vec<d2::Point<f64>> = (0..k).map(|_| d2::gen_p(r, lat, 2.0) + off).collect();
+                let mut s = format!("{}", k); for p in &vs { s.push(' '); s.push_str(&d2::hp(p)); }
+                s.push_str(&format!(" {}", k - 1)); for i in 0..k - 1 { s.push_str(&format!(" {} {}", i, i + 1)); }
+                let sc2 = d2::Vector::new(sc.x, sc.y);
+                let sp: Vec<(d2::Vector<f64>, d2::Vector<f64>)> = (0..k - 1).map(|i| (vs[i].coords.component_mul(&sc2), vs[i + 1].coords.component_mul(&sc2))).collect();
+                let mut t = String::from("3");
+                for i in 0..3 { let g = *r.pick(&sp); let w = if lat { 0.25 * (1 + r.below(3)) as f64 } else { 0.1 + 0.8 * r.unit() };
+                    let target = g.0 + (g.1 - g.0) * w;
+                    let o = target + d2::gen_v(r, lat, 8.0) + d2::Vector::new(0.125, 0.0);
+                    let d = if i == 2 { d2::gen_v(r, lat, 1.0) + d2::Vector::new(0.0, 0.125) } else { (target - o) * *r.pick(&[0.25, 1.0, 4.0]) };
+                    t.push_str(&format!(" {} {}", d2::hv(&o), d2::hv(&d))); }
+                t.push_str(" 4");
+                for _ in 0..4 { let g = *r.pick(&sp); let w = match r.below(3) { 0 => 0.0, 1 => 1.0, _ => r.unit() };
+                    let size = (g.1 - g.0).norm().max(1e-3);
+                    let q = g.0 + (g.1 - g.0) * w + d2::gen_v(r, lat, 1.0) * (size * *r.pick(&[1e-3, 0.0625, 0.5, 2.0]));
+                    t.push(' '); t.push_str(&d2::hv(&d2::Vector::new(q.x / sc2.x, q.y / sc2.y))); }
+                t.push_str(" 3");
+                for _ in 0..3 { let g = *r.pick(&sp); let c = g.0 + (g.1 - g.0) * r.unit(); let h = d2::Vector::new(r.uniform(0.0, 2.0) * sc2.x.abs(), r.uniform(0.0, 2.0) * sc2.y.abs());
+                    t.push_str(&format!(" {} {}", d2::hv(&(c - h)), d2::hv(&(c + h)))); }
+                v.push(("acc2".into(), format!("{} {} {} {}", s, d2::hv(&sc2), via, t)));
+            }
             // Aabb::scaled alone, every sign pattern (proper boxes, incl. flat ones)
             let lo = d3::gen_v(r, lat, 4.0); let e = V3::new(r.coord(lat, 2.0).abs(), r.coord(lat, 2.0).abs(), if it % 7 == 0 { 0.0 } else { r.coord(lat, 2.0).abs() });
             v.push(("aabb_scaled3".into(), format!("{} {} {}", d3::hv(&lo), d3::hv(&(lo + e)), d3::hv(&sc))));
